@@ -161,8 +161,12 @@ fn check_nopanic(s: &str, acc: &mut Acc) {
 pub fn run(ctx: &Ctx) -> i32 {
     let names: Vec<String> = strings(&["a", "1", "-", "."], 1, if ctx.thorough() { 4 } else { 3 }).into_iter().filter(|s| !s.starts_with('-')).collect();
     let epochs = ["", "0", "1", "12", "00", "01", "2147483647", "2147483648", "4294967295"];
-    let vers = strings(&["1", "a", "."], 1, 2);
-    let rels = strings(&["1", "a", "."], 1, 2);
+    let vers = strings(&["1", "a", ".", "0"], 1, 2);
+    let rels = strings(&["1", "a", ".", "0"], 1, 2);
+    // dependency versions have no release: EVRs (not NEVRAs) also with an empty release
+    let evr_rels: Vec<String> = std::iter::once(String::new()).chain(rels.iter().cloned()).collect();
+    // longer versions with zero-padded numeric segments
+    let evr_vers: Vec<String> = vers.iter().cloned().chain(["1.05", "2023.01.09", "5.008", "00", "0.0", "1.0a01", "007"].iter().map(|s| s.to_string())).collect();
     let archs = ["x", "noarch", "x86_64", ""]; // "" as in gpg-pubkey packages
     let rad = [names.len() as u64, epochs.len() as u64, vers.len() as u64, rels.len() as u64, archs.len() as u64];
     let n = vlib::par::product(&rad);
@@ -173,7 +177,7 @@ pub fn run(ctx: &Ctx) -> i32 {
     let mut s1 = SubReport::new(
         "nevra",
         "A",
-        &format!("all {} tuples: name ∈ strings of length 1..3 over {{a,1,-,.}} not starting with '-', epoch ∈ {:?}, version and release ∈ strings of length 1..2 over {{1,a,.}}, arch ∈ {:?}; to_string/parse, as_normalized_form/parse, parse_values, nvra; plus the asset packages' own NEVRAs, plus 891 tuples whose name contains the package's own version, release, architecture or the whole '-V-R.A' text (once, twice, with a suffix)", n, epochs, archs),
+        &format!("all {} tuples: name ∈ strings of length 1..3 over {{a,1,-,.}} not starting with '-', epoch ∈ {:?}, version and release ∈ strings of length 1..2 over {{1,a,.,0}}, arch ∈ {:?}; to_string/parse, as_normalized_form/parse, parse_values, nvra; plus the asset packages' own NEVRAs, plus 891 tuples whose name contains the package's own version, release, architecture or the whole '-V-R.A' text (once, twice, with a suffix)", n, epochs, archs),
         a,
     );
     // asset packages
@@ -222,13 +226,13 @@ pub fn run(ctx: &Ctx) -> i32 {
     }
     s1.acc.merge(selfsim);
 
-    let erad = [epochs.len() as u64, vers.len() as u64, rels.len() as u64];
+    let erad = [epochs.len() as u64, evr_vers.len() as u64, evr_rels.len() as u64];
     let en = vlib::par::product(&erad);
     let b = merge(par_fold(en, Acc::new, |i, acc| {
         let d = vlib::par::decode(i, &erad);
-        check_evr(epochs[d[0] as usize], &vers[d[1] as usize], &rels[d[2] as usize], i, acc);
+        check_evr(epochs[d[0] as usize], &evr_vers[d[1] as usize], &evr_rels[d[2] as usize], i, acc);
     }));
-    let s2 = SubReport::new("evr", "A", &format!("all {} (epoch, version, release) tuples over the same component sets", en), b);
+    let s2 = SubReport::new("evr", "A", &format!("all {} (epoch, version, release) tuples over the same component sets, plus seven longer versions with zero-padded numeric segments (1.05, 2023.01.09, …) and the empty release (a dependency version such as 4:5.30)", en), b);
 
     // compression types
     let mut c = Acc::new();
